@@ -159,13 +159,20 @@ def Ctx.hubJoinOne (c : Ctx) (r : HeldReq) : Ctx :=
 
 /-- hub.unreg (hub.go:280-293, Hub.topicUnreg): the owner's {del topic} on a loaded topic - case 1.1.1: paused, deleted in the
 store, acknowledged, taken off the hub, told to exit -; the idle timer - case 2: marked, taken off the hub, told to exit -/
-def Ctx.hubUnregOne (c : Ctx) (r : HeldReq) : Ctx :=
+def Ctx.hubUnregOne (c : Ctx) (yieldPub : Bool) (r : HeldReq) : Ctx :=
   match c.w.live? r.tn with
   | none => if r.kind = "deltopic" then c.opDelTopic r.a r.tn r.hard else c
   | some t =>
     if r.kind = "unload" then
       { c with w := { c.w.delLive t.name with exiting := c.w.exiting ++ [{ t with deleted := true, exitDeleted := false }] } }
     else if r.a.uid ≠ "" ∧ t.owner = r.a.uid then
+      -- the topic is paused first (markPaused): while the hub waits for the database the topic's own goroutine may take what is
+      -- queued for it (`hubstep yield`: the publishes) - it finds itself inactive and refuses
+      let pubs := t.q.filter (·.kind = "pub")
+      let (c, t) := if yieldPub then
+          let t' := { t with q := t.q.filter (·.kind ≠ "pub") }
+          ({ (pubs.foldl (fun c p => c.emit p.a.sid (ctrl 503 p.tn)) c) with w := c.w.setLive t' }, t')
+        else (c, t)
       let (c, ok) := c.call "TopicDelete" (fun w =>
         if r.hard then w.delRow r.tn
         else match w.row? r.tn with
@@ -176,13 +183,14 @@ def Ctx.hubUnregOne (c : Ctx) (r : HeldReq) : Ctx :=
       { c with w := { c.w.delLive t.name with exiting := c.w.exiting ++ [{ t with paused := true, deleted := true, exitDeleted := true }] } }
     else c
 
-def Ctx.hubStep (c : Ctx) : Ctx :=
+def Ctx.hubStep (c : Ctx) (yieldPub : Bool := false) : Ctx :=
   let joins := c.w.hubJoin
   let c := { c with w := { c.w with hubJoin := [] } }
   let c := joins.foldl Ctx.hubJoinOne c
   let unregs := c.w.hubUnreg
   let c := { c with w := { c.w with hubUnreg := [] } }
-  unregs.foldl Ctx.hubUnregOne c
+  -- (only the first deletion of the step is interleaved: the harness yields once)
+  (unregs.foldl (fun (cy : Ctx × Bool) r => (cy.1.hubUnregOne (cy.2 && r.kind = "deltopic") r, cy.2 && r.kind ≠ "deltopic")) (c, yieldPub)).1
 
 /-! ### a topic takes one message -/
 
